@@ -177,22 +177,39 @@ structure Gh where
   V : View
   ok : Bool
   stale : Bool
+  okq : Bool := true     -- every flush that left the channel empty satisfied `quietOkB`
 
 def ghostEv (rib : Rib) (mx : Nat) (g : Gh) : Ev → Gh
-  | .change c => ⟨g.V.update c.net c.destId c.paths, g.ok && admChk mx g.V c, g.stale⟩
+  | .change c => { g with V := g.V.update c.net c.destId c.paths, ok := g.ok && admChk mx g.V c }
   | .softReset =>
       let cs := rib.flatMap (fun s => s.collect (collectLimit mx))
-      ⟨viewRefresh g.V cs, g.ok && snapMatchesChk mx g.V cs, false⟩
+      { g with V := viewRefresh g.V cs, ok := g.ok && snapMatchesChk mx g.V cs, stale := false }
 
 def ghostDeliverN (rib : Rib) (mx : Nat) : Nat → List Ev → Gh → Gh
   | 0, _, g => g
   | _ + 1, [], g => g
   | n + 1, e :: q, g => ghostDeliverN rib mx n q (ghostEv rib mx g e)
 
+/-- prefixes some source announces at the end of the history `hist`, per the history itself -/
+def liveNetsAt (c : Case01) (hist : List Op) : List Net :=
+  (Spec01.liveAnn c.srcs hist []).filterMap (fun x => (c.pfxs[x.2.1]?).map (·.1))
+
+/-- the hypotheses under which the neighbour's view and a fresh dump are proved equal at a point of
+    the run: the ghost says ok, no policy change waits for its soft reset, the RIB snapshot is
+    consistent, carries the view's paths (best paths without add-path) and only announced prefixes -/
+def pointOkB (c : Case01) (hist : List Op) (w : World) (g : Gh) : Bool :=
+  g.ok && !g.stale &&
+  snapChk c.sess.max (snapshotOf w.st.sess w.rib) &&
+  viewMatchChk c.sess.max g.V (snapshotOf w.st.sess w.rib) &&
+  (freshDump w.st.sess w.rib).all (fun r => (liveNetsAt c hist).contains r.net)
+
 def ghostStep (c : Case01) (w : World) (g : Gh) : Op → Gh
   | .llgr _ => { g with ok := false }
   | .reset _ => { g with stale := true }
+  | .greset _ => { g with stale := true }
   | .deliver n => ghostDeliverN w.rib c.sess.max n w.queue g
+  | .flush => { g with okq := g.okq &&
+      (!w.queue.isEmpty || pointOkB c (c.pre ++ Spec01.uptoFlush c.ops w.flushes.length) w g) }
   | _ => g
 
 def stepWG (c : Case01) (s : World × Gh) (op : Op) : World × Gh :=
@@ -400,6 +417,10 @@ theorem step_inv (c : Case01) (w : World) (g : Gh) (hJ : J c.sess.max w g) (op :
     refine ⟨by simp [World.step, hl], ?_⟩
     simp only [World.step, ghostStep]
     exact si_policy _ _ _ _ S _
+  | greset k =>
+    refine ⟨by simp [World.step, hl], ?_⟩
+    simp only [World.step, ghostStep]
+    exact si_policy _ _ _ _ S _
   | deliver n =>
     simp only [World.step, ghostStep, hl] at hok ⊢
     refine ⟨trivial, ?_⟩
@@ -432,80 +453,81 @@ def rib0Of (c : Case01) : Rib × Nat :=
       (r, a)) (initRib c.shards, 1)
 
 def world0 (c : Case01) : World :=
-  { rib := (rib0Of c).1, st := establish c.sess (rib0Of c).1, nextAttrId := (rib0Of c).2 }
+  { rib := (rib0Of c).1, st := establish c.sess (rib0Of c).1, nextAttrId := (rib0Of c).2,
+    ppol := c.ppol0, gpol := c.gpol0 }
+
+def gh0 (c : Case01) : Gh := { V := viewOf (snapshotOf c.sess (rib0Of c).1), ok := true, stale := false }
 
 def finalWG (c : Case01) : World × Gh :=
-  let s1 := c.ops.foldl (stepWG c) (world0 c, ⟨viewOf (snapshotOf c.sess (rib0Of c).1), true, false⟩)
+  let s1 := c.ops.foldl (stepWG c) (world0 c, gh0 c)
   stepWG c s1 (.deliver s1.1.queue.length)
 
 /-- prefixes some source currently announces, per the history itself -/
-def liveNetsOf (c : Case01) : List Net :=
-  (Spec01.liveAnn c.srcs (c.pre ++ c.ops) []).filterMap (fun x => (c.pfxs[x.2.1]?).map (·.1))
+def liveNetsOf (c : Case01) : List Net := liveNetsAt c (c.pre ++ c.ops)
 
 /-- The hypotheses of the session-level theorems, computed along the run (in the session's mode,
     with or without add-path): no LLGR stale period, a consistent initial snapshot, every delivered
-    change admissible for the view, every soft reset run on a snapshot of the view's destinations,
-    no policy change left without its soft reset, and at the end a consistent RIB snapshot whose
-    paths (best paths, for a session without add-path) are the view's and whose prefixes are
-    announced by some source. -/
+    change admissible for the view, every soft reset run on a snapshot of the view's destinations;
+    and, at every flush that leaves the channel empty and at the end of the history (`pointOkB`):
+    no policy change left without its soft reset, a consistent RIB snapshot whose paths (best paths,
+    for a session without add-path) are the view's and whose prefixes are announced by some source. -/
 def okRun (c : Case01) : Bool :=
   noLlgr c.ops &&
   snapChk c.sess.max (snapshotOf c.sess (rib0Of c).1) &&
-  (finalWG c).2.ok && !(finalWG c).2.stale &&
-  snapChk c.sess.max (snapshotOf (finalWG c).1.st.sess (finalWG c).1.rib) &&
-  viewMatchChk c.sess.max (finalWG c).2.V (snapshotOf (finalWG c).1.st.sess (finalWG c).1.rib) &&
-  (freshDump (finalWG c).1.st.sess (finalWG c).1.rib).all (fun r => (liveNetsOf c).contains r.net)
+  (finalWG c).2.okq &&
+  pointOkB c (c.pre ++ c.ops) (finalWG c).1 (finalWG c).2
 
 theorem run01_eq (c : Case01) :
     run01 c = ⟨(finalWG c).1.st.flush.reuse, (finalWG c).1.st.flush.overtaken, (finalWG c).1.flushes,
+               (finalWG c).1.quiet,
                (finalWG c).1.st.flush.mirror, freshDump (finalWG c).1.st.flush.sess (finalWG c).1.rib⟩ := by
-  simp only [run01, finalWG, stepWG, fold_fst, world0, rib0Of]
+  simp only [run01, finalWG, stepWG, fold_fst, world0, rib0Of, gh0]
 
 /-- two well-shaped mirrors that agree on every lookup pass the set comparison of the checker -/
-theorem check_of_get_eqA (c : Case01) (o : Obs01)
-    (hf : MirrorOkA o.final) (hd : MirrorOkA o.dump)
-    (hget : ∀ net w, Mirror.get o.final net w = Mirror.get o.dump net w)
-    (hlive : ∀ r ∈ o.dump, (liveNetsOf c).contains r.net = true) :
-    Spec01.check c o = .ok := by
-  have hsub1 : ∀ r ∈ o.final, r ∈ o.dump := by
+theorem pointCheck_of_get_eq (c : Case01) (hist : List Op) (reuse overtaken : Nat) (final dump : Mirror) (sfx : String)
+    (hf : MirrorOkA final) (hd : MirrorOkA dump)
+    (hget : ∀ net w, Mirror.get final net w = Mirror.get dump net w)
+    (hlive : ∀ r ∈ dump, (liveNetsAt c hist).contains r.net = true) :
+    Spec01.pointCheck c hist reuse overtaken final dump sfx = .ok := by
+  have hsub1 : ∀ r ∈ final, r ∈ dump := by
     intro r hr
-    have := get_of_memA o.final hf r hr
+    have := get_of_memA final hf r hr
     rw [hget r.net r.pid] at this
     exact (mem_of_get _ _ _ _ this).1
-  have hsub2 : ∀ r ∈ o.dump, r ∈ o.final := by
+  have hsub2 : ∀ r ∈ dump, r ∈ final := by
     intro r hr
-    have := get_of_memA o.dump hd r hr
+    have := get_of_memA dump hd r hr
     rw [← hget r.net r.pid] at this
     exact (mem_of_get _ _ _ _ this).1
   have hself : ∀ (m : Mirror), MirrorOkA m → ∀ r ∈ m, Spec01.sameRoute r r = true := by
     intro m hm r hr
     simp [Spec01.sameRoute, Spec01.sameKey, hm.2 r hr]
   have hk : ∀ r : Route, Spec01.sameKey r r = true := by intro r; simp [Spec01.sameKey]
-  have c1 : (o.final.any (fun r => !(liveNetsOf c).contains r.net)) = false := by
+  have c1 : (final.any (fun r => !(liveNetsAt c hist).contains r.net)) = false := by
     rw [Bool.eq_false_iff]; intro h
     obtain ⟨r, hr, hb⟩ := List.any_eq_true.mp h
     have := hlive r (hsub1 r hr)
     simp only [List.contains_eq_mem, decide_eq_true_eq] at this
     simp [this] at hb
-  have c2 : (o.final.any (fun r => !o.dump.any (Spec01.sameKey r))) = false := by
+  have c2 : (final.any (fun r => !dump.any (Spec01.sameKey r))) = false := by
     rw [Bool.eq_false_iff]; intro h
     obtain ⟨r, hr, hb⟩ := List.any_eq_true.mp h
-    have : o.dump.any (Spec01.sameKey r) = true := List.any_eq_true.mpr ⟨r, hsub1 r hr, hk r⟩
+    have : dump.any (Spec01.sameKey r) = true := List.any_eq_true.mpr ⟨r, hsub1 r hr, hk r⟩
     simp [this] at hb
-  have c3 : (o.dump.any (fun r => !o.final.any (Spec01.sameKey r))) = false := by
+  have c3 : (dump.any (fun r => !final.any (Spec01.sameKey r))) = false := by
     rw [Bool.eq_false_iff]; intro h
     obtain ⟨r, hr, hb⟩ := List.any_eq_true.mp h
-    have : o.final.any (Spec01.sameKey r) = true := List.any_eq_true.mpr ⟨r, hsub2 r hr, hk r⟩
+    have : final.any (Spec01.sameKey r) = true := List.any_eq_true.mpr ⟨r, hsub2 r hr, hk r⟩
     simp [this] at hb
-  have c4 : (o.final.any (fun r => !o.dump.any (Spec01.sameRoute r))) = false := by
+  have c4 : (final.any (fun r => !dump.any (Spec01.sameRoute r))) = false := by
     rw [Bool.eq_false_iff]; intro h
     obtain ⟨r, hr, hb⟩ := List.any_eq_true.mp h
-    have : o.dump.any (Spec01.sameRoute r) = true :=
-      List.any_eq_true.mpr ⟨r, hsub1 r hr, hself o.final hf r hr⟩
+    have : dump.any (Spec01.sameRoute r) = true :=
+      List.any_eq_true.mpr ⟨r, hsub1 r hr, hself final hf r hr⟩
     simp [this] at hb
-  have c5 : decide ((o.final.map (fun r => (r.net, r.pid))).Nodup) = true := by simpa using hf.1
-  simp only [Spec01.check]
-  have hl : (Spec01.liveAnn c.srcs (c.pre ++ c.ops) []).filterMap (fun x => (c.pfxs[x.2.1]?).map (·.1)) = liveNetsOf c := rfl
+  have c5 : decide ((final.map (fun r => (r.net, r.pid))).Nodup) = true := by simpa using hf.1
+  simp only [Spec01.pointCheck]
+  have hl : (Spec01.liveAnn c.srcs hist []).filterMap (fun x => (c.pfxs[x.2.1]?).map (·.1)) = liveNetsAt c hist := rfl
   simp only [hl, c1, c2, c3, c4, c5, Bool.false_eq_true, if_false, Bool.not_true]
 
 theorem mirrorOkA_of_ok (m : Mirror) (h : MirrorOk m) : MirrorOkA m := ⟨h.1, fun r hr => (h.2 r hr).2⟩
@@ -518,18 +540,145 @@ theorem get_nonzero (m : Mirror) (h : MirrorOk m) (net : Net) (w : Nat) (hw : w 
     have := mem_of_get m net w r hg
     exact absurd ((h.2 r this.1).1 ▸ this.2.2).symm hw
 
+/-- At any point of a run at which the invariant and `pointOkB` hold, the flushed neighbour view
+    passes the comparison with the fresh dump. -/
+theorem point_ok (c : Case01) (hist : List Op) (W : World) (g : Gh) (hJ : J c.sess.max W g)
+    (hp : pointOkB c hist W g = true) (reuse overtaken : Nat) (sfx : String) :
+    Spec01.pointCheck c hist reuse overtaken W.st.flush.mirror (freshDump W.st.sess W.rib) sfx = .ok := by
+  simp only [pointOkB, Bool.and_eq_true, Bool.not_eq_true'] at hp
+  obtain ⟨⟨⟨⟨hok, hst⟩, hsF⟩, hview⟩, hlive⟩ := hp
+  have hlive' : ∀ r ∈ freshDump W.st.sess W.rib, (liveNetsAt c hist).contains r.net = true :=
+    fun r hr => (List.all_eq_true.mp hlive) r hr
+  obtain ⟨_, hmax, hmode⟩ := hJ hok
+  rcases hmode with ⟨hm, E, S, hcur⟩ | ⟨hm, E, S, hcur⟩
+  · -- session without add-path
+    have hcur' := hcur hst
+    simp only [snapChk, viewMatchChk, hm, if_true] at hsF hview
+    have hmax1 : W.st.sess.max = 1 := hmax.trans hm
+    have hfin := sinv_flush S
+    have Sd := sinv_establish W.st.sess hmax1 W.rib (snapshotB_sound hsF)
+    have hdump := sinv_flush Sd
+    have hokF : MirrorOk W.st.flush.mirror := by
+      have := hfin.mok; simpa [mbOf, SessState.flush, PendingTx.drain] using this
+    have hokD : MirrorOk (freshDump W.st.sess W.rib) := by
+      have := hdump.mok
+      simpa [mbOf, SessState.flush, PendingTx.drain, freshDump] using this
+    apply pointCheck_of_get_eq
+    · exact mirrorOkA_of_ok _ hokF
+    · exact mirrorOkA_of_ok _ hokD
+    rotate_left
+    · exact hlive'
+    intro net w
+    by_cases hw : w = 0
+    · subst hw
+      have e1 := converged S net
+      have e2 : Mirror.get (freshDump W.st.sess W.rib) net 0 =
+          wantRoute W.st.sess.exp (viewOf (snapshotOf W.st.sess W.rib)) net 0 :=
+        converged Sd net
+      rw [e1, e2]
+      have hE : wantRoute (E net) g.V net 0 = wantRoute W.st.sess.exp g.V net 0 := by
+        cases hf : g.V.find net with
+        | none =>
+          rw [wantRoute_absent _ (S.inv.mode.2.2 net) _ _ hf, wantRoute_absent _ (by rw [exp_max]; exact hmax1) _ _ hf]
+        | some x =>
+          have hxm := View.find_mem _ net x hf
+          have := hcur' x hxm.1
+          rw [hxm.2] at this; rw [this]
+      rw [hE]
+      exact wantRoute_head _ hmax1 _ _ net (headsMatchB_sound S.inv.vwf hview net)
+    · rw [get_nonzero _ hokF net w hw, get_nonzero _ hokD net w hw]
+  · -- add-path session
+    have hcur' := hcur hst
+    simp only [snapChk, viewMatchChk, hm, if_false] at hsF hview
+    have hmaxA : W.st.sess.max ≠ 1 := by rw [hmax]; exact hm
+    have Sd := sinv_establishA W.st.sess hmaxA W.rib (snapshotAB_sound hsF)
+    apply pointCheck_of_get_eq
+    · exact flush_mirrorOkA S
+    · exact flush_mirrorOkA Sd
+    rotate_left
+    · exact hlive'
+    · intro net w
+      have e1 := convergedA S net w
+      have e2 := fresh_dumpA W.st.sess hmaxA W.rib (snapshotAB_sound hsF) net w
+      have e3 := wantA_current E g.V W.st.sess.exp S.inv.ap
+        (fun n x => (S.inv.winE n x).1) hcur' net w
+      have e4 : wantRouteA W.st.sess.exp g.V net w =
+          wantRouteA W.st.sess.exp (viewOf (snapshotOf W.st.sess W.rib)) net w := by
+        simp only [wantRouteA]
+        rw [pathsMatchB_sound S.inv.vwf hview net]
+      exact (e1.trans (e3.trans e4)).trans e2.symm
+
+/-- every flush recorded so far that left the channel empty passes the checker -/
+def QOk (c : Case01) (w : World) (g : Gh) : Prop :=
+  g.okq = true → ∀ q ∈ w.quiet, Spec01.quietCheck c q = .ok
+
+theorem okq_mono (c : Case01) (w : World) (g : Gh) (op : Op) (h : (ghostStep c w g op).okq = true) : g.okq = true := by
+  cases op with
+  | deliver n =>
+    simp only [ghostStep] at h
+    -- delivery does not touch `okq`
+    have : ∀ (n : Nat) (q : List Ev) (g : Gh), (ghostDeliverN w.rib c.sess.max n q g).okq = g.okq := by
+      intro n
+      induction n with
+      | zero => intro q g; rfl
+      | succ n ih =>
+        intro q g
+        cases q with
+        | nil => rfl
+        | cons e rest =>
+          simp only [ghostDeliverN]
+          rw [ih]
+          cases e <;> rfl
+    rw [this] at h; exact h
+  | flush => simp only [ghostStep, Bool.and_eq_true] at h; exact h.1
+  | _ => exact h
+
+theorem step_q (c : Case01) (w : World) (g : Gh) (hJ : J c.sess.max w g) (hQ : QOk c w g) (op : Op) :
+    QOk c (World.step c w op) (ghostStep c w g op) := by
+  intro hokq
+  have hq0 := okq_mono c w g op hokq
+  cases op with
+  | flush =>
+    simp only [ghostStep, Bool.and_eq_true, Bool.or_eq_true, Bool.not_eq_true'] at hokq
+    simp only [World.step]
+    intro q hq
+    by_cases he : w.queue.isEmpty = true
+    · simp only [he, if_true, List.mem_append, List.mem_singleton] at hq
+      rcases hq with hq | rfl
+      · exact hQ hq0 q hq
+      · have hp : pointOkB c (c.pre ++ Spec01.uptoFlush c.ops w.flushes.length) w g = true := by
+          rcases hokq.2 with h | h
+          · rw [he] at h; cases h
+          · exact h
+        have := point_ok c _ w g hJ hp w.st.flush.reuse w.st.flush.overtaken s!" at={w.flushes.length}"
+        have hs : w.st.flush.sess = w.st.sess := rfl
+        simp only [Spec01.quietCheck, hs]
+        exact this
+    · simp only [he, Bool.false_eq_true, if_false] at hq
+      exact hQ hq0 q hq
+  | ann s p rpid a nh => intro q hq; exact hQ hq0 q (by simpa [World.step] using hq)
+  | wd s p rpid => intro q hq; exact hQ hq0 q (by simpa [World.step] using hq)
+  | down s => intro q hq; exact hQ hq0 q (by simpa [World.step] using hq)
+  | llgr s => intro q hq; exact hQ hq0 q (by simpa [World.step] using hq)
+  | nh a up => intro q hq; exact hQ hq0 q (by simpa [World.step] using hq)
+  | reset k => intro q hq; exact hQ hq0 q (by simpa [World.step] using hq)
+  | greset k => intro q hq; exact hQ hq0 q (by simpa [World.step] using hq)
+  | deliver n => intro q hq; exact hQ hq0 q (by simpa [World.step] using hq)
+
+theorem run_inv_Q (c : Case01) (ops : List Op) (s : World × Gh) (hJ : J c.sess.max s.1 s.2) (hQ : QOk c s.1 s.2) :
+    QOk c (ops.foldl (stepWG c) s).1 (ops.foldl (stepWG c) s).2 := by
+  induction ops generalizing s with
+  | nil => exact hQ
+  | cons op rest ih => exact ih _ (step_inv c s.1 s.2 hJ op) (step_q c s.1 s.2 hJ hQ op)
+
 /-- **Master theorem**: the C01 reference checker accepts every run of the model whose computed
-    hypotheses hold, for a session with or without add-path. -/
+    hypotheses hold, for a session with or without add-path: at every flush that leaves the channel
+    empty and at the end of the history. -/
 theorem check_run_ok (c : Case01) (h : okRun c = true) : Spec01.check c (run01 c) = .ok := by
-  simp only [okRun, Bool.and_eq_true, Bool.not_eq_true'] at h
-  obtain ⟨⟨⟨⟨⟨⟨_, hs0⟩, hok⟩, hst⟩, hsF⟩, hview⟩, hlive⟩ := h
-  have hlive' : ∀ r ∈ freshDump (finalWG c).1.st.flush.sess (finalWG c).1.rib, (liveNetsOf c).contains r.net = true := by
-    intro r hr
-    have hsess : (finalWG c).1.st.flush.sess = (finalWG c).1.st.sess := rfl
-    simp only [hsess] at hr
-    exact (List.all_eq_true.mp hlive) r hr
+  simp only [okRun, Bool.and_eq_true] at h
+  obtain ⟨⟨⟨_, hs0⟩, hokq⟩, hp⟩ := h
   -- the invariant holds initially
-  have J0 : J c.sess.max (world0 c) ⟨viewOf (snapshotOf c.sess (rib0Of c).1), true, false⟩ := by
+  have J0 : J c.sess.max (world0 c) (gh0 c) := by
     intro _
     refine ⟨rfl, rfl, ?_⟩
     by_cases hm : c.sess.max = 1
@@ -541,75 +690,25 @@ theorem check_run_ok (c : Case01) (h : okRun c = true) : Spec01.check c (run01 c
       simp only [snapChk, hm, if_false] at hs0
       exact ⟨hm, fun _ _ => c.sess.exp, sinv_establishA c.sess hm (rib0Of c).1 (snapshotAB_sound hs0),
         fun _ x _ _ => by simp [world0, establish]⟩
+  have Q0 : QOk c (world0 c) (gh0 c) := by intro _ q hq; cases hq
   -- and after the whole run, final delivery included
-  have J1 := run_inv_WG c c.ops (world0 c, ⟨viewOf (snapshotOf c.sess (rib0Of c).1), true, false⟩) J0
-  have J2 := step_inv c _ _ J1 (.deliver (c.ops.foldl (stepWG c) (world0 c, ⟨viewOf (snapshotOf c.sess (rib0Of c).1), true, false⟩)).1.queue.length)
+  have J1 := run_inv_WG c c.ops (world0 c, gh0 c) J0
+  have Q1 := run_inv_Q c c.ops (world0 c, gh0 c) J0 Q0
+  have J2 := step_inv c _ _ J1 (.deliver (c.ops.foldl (stepWG c) (world0 c, gh0 c)).1.queue.length)
+  have Q2 := step_q c _ _ J1 Q1 (.deliver (c.ops.foldl (stepWG c) (world0 c, gh0 c)).1.queue.length)
   have J2' : J c.sess.max (finalWG c).1 (finalWG c).2 := J2
+  have Q2' : QOk c (finalWG c).1 (finalWG c).2 := Q2
   rw [run01_eq]
-  clear J2 J1 J0
+  clear J2 J1 J0 Q2 Q1 Q0
   generalize finalWG c = W at *
-  obtain ⟨_, hmax, hmode⟩ := J2' hok
-  have hsess : W.1.st.flush.sess = W.1.st.sess := rfl
-  rcases hmode with ⟨hm, E, S, hcur⟩ | ⟨hm, E, S, hcur⟩
-  · -- session without add-path
-    have hcur' := hcur hst
-    simp only [snapChk, viewMatchChk, hm, if_true] at hsF hview
-    have hmax1 : W.1.st.sess.max = 1 := hmax.trans hm
-    have hfin := sinv_flush S
-    have Sd := sinv_establish W.1.st.sess hmax1 W.1.rib (snapshotB_sound hsF)
-    have hdump := sinv_flush Sd
-    have hokF : MirrorOk W.1.st.flush.mirror := by
-      have := hfin.mok; simpa [mbOf, SessState.flush, PendingTx.drain] using this
-    have hokD : MirrorOk (freshDump W.1.st.flush.sess W.1.rib) := by
-      have := hdump.mok
-      simpa [mbOf, SessState.flush, PendingTx.drain, freshDump] using this
-    apply check_of_get_eqA
-    · exact mirrorOkA_of_ok _ hokF
-    · exact mirrorOkA_of_ok _ hokD
-    rotate_left
-    · exact hlive'
-    intro net w
-    by_cases hw : w = 0
-    · subst hw
-      show Mirror.get W.1.st.flush.mirror net 0 =
-        Mirror.get (freshDump W.1.st.flush.sess W.1.rib) net 0
-      have e1 := converged S net
-      have e2 : Mirror.get (freshDump W.1.st.sess W.1.rib) net 0 =
-          wantRoute W.1.st.sess.exp (viewOf (snapshotOf W.1.st.sess W.1.rib)) net 0 :=
-        converged Sd net
-      rw [hsess, e1, e2]
-      have hE : wantRoute (E net) W.2.V net 0 = wantRoute W.1.st.sess.exp W.2.V net 0 := by
-        cases hf : W.2.V.find net with
-        | none =>
-          rw [wantRoute_absent _ (S.inv.mode.2.2 net) _ _ hf, wantRoute_absent _ (by rw [exp_max]; exact hmax1) _ _ hf]
-        | some x =>
-          have hxm := View.find_mem _ net x hf
-          have := hcur' x hxm.1
-          rw [hxm.2] at this; rw [this]
-      rw [hE]
-      exact wantRoute_head _ hmax1 _ _ net (headsMatchB_sound S.inv.vwf hview net)
-    · show Mirror.get W.1.st.flush.mirror net w =
-        Mirror.get (freshDump W.1.st.flush.sess W.1.rib) net w
-      rw [get_nonzero _ hokF net w hw, get_nonzero _ hokD net w hw]
-  · -- add-path session
-    have hcur' := hcur hst
-    simp only [snapChk, viewMatchChk, hm, if_false] at hsF hview
-    have hmaxA : W.1.st.sess.max ≠ 1 := by rw [hmax]; exact hm
-    have Sd := sinv_establishA W.1.st.sess hmaxA W.1.rib (snapshotAB_sound hsF)
-    apply check_of_get_eqA
-    · exact flush_mirrorOkA S
-    · exact flush_mirrorOkA Sd
-    rotate_left
-    · exact hlive'
-    · intro net w
-      have e1 := convergedA S net w
-      have e2 := fresh_dumpA W.1.st.sess hmaxA W.1.rib (snapshotAB_sound hsF) net w
-      have e3 := wantA_current E W.2.V W.1.st.sess.exp S.inv.ap
-        (fun n x => (S.inv.winE n x).1) hcur' net w
-      have e4 : wantRouteA W.1.st.sess.exp W.2.V net w =
-          wantRouteA W.1.st.sess.exp (viewOf (snapshotOf W.1.st.sess W.1.rib)) net w := by
-        simp only [wantRouteA]
-        rw [pathsMatchB_sound S.inv.vwf hview net]
-      exact (e1.trans (e3.trans e4)).trans e2.symm
+  have hq := Q2' hokq
+  have hfin := point_ok c (c.pre ++ c.ops) W.1 W.2 J2' hp W.1.st.flush.reuse W.1.st.flush.overtaken ""
+  simp only [Spec01.check]
+  have hnone : W.1.quiet.find? (fun q => Spec01.quietCheck c q != .ok) = none := by
+    rw [List.find?_eq_none]
+    intro q hqm
+    simp [hq q hqm]
+  rw [hnone]
+  exact hfin
 
 end Rbgp.Export.Conv
